@@ -115,7 +115,10 @@ Fixpoint last_opt {A} (l : list A) : option A :=
 
 (* the three passes over the flag / x / y sections: `need` = number_of_coordinates *)
 Definition read_points (need : Z) (bs : list Z) : outcome (list point * list Z) :=
-  '(fl, bs) <- read_flags need bs ;;
+  '(fl0, bs) <- read_flags need bs ;;
+  (* `coordinates.truncate(number_of_coordinates)`: a repeat run past the last point leaves no
+     surplus entries (and no x / y bytes are consumed for them) *)
+  let fl := firstn (Z.to_nat need) fl0 in
   '(dxs, bs) <- read_xs fl bs ;;
   '(pts, bs) <- read_ys 0 0 fl dxs bs ;;
   Ok (combine fl pts, bs).
